@@ -1237,6 +1237,26 @@ pub fn drive_c16(a: &Args) {
             }
         }
     }
+    // a loop against a NESTED loop over the same body (the iteration counts of the nested one have gaps whenever
+    // it was not flattened), both directions
+    {
+        let bodies = [ca.clone(), T::Rng(pool.a, pool.b)];
+        let simple: Vec<(u32, Option<u32>)> = vec![(1, Some(2)), (5, Some(5)), (2, Some(3)), (1, None), (4, Some(7)), (0, Some(1))];
+        let inner: Vec<(u32, Option<u32>)> = vec![(2, Some(3)), (3, Some(4)), (2, Some(2))];
+        let outer: Vec<(u32, Option<u32>)> = vec![(0, None), (1, None), (1, Some(2)), (2, Some(2))];
+        for body in &bodies {
+            for &(i, j) in &simple {
+                for &(c, d) in &inner {
+                    for &(e, f) in &outer {
+                        let x = T::Loop(bx(body), i, j);
+                        let y = T::Loop(bx(&T::Loop(bx(body), c, d)), e, f);
+                        pairs.push((x.clone(), y.clone(), "loop-vs-nested-loop"));
+                        pairs.push((y, x, "loop-vs-nested-loop"));
+                    }
+                }
+            }
+        }
+    }
     // sub-term pairs of random programs
     for _ in 0..a.sz(150, 2500) {
         let t = random_term(&mut rng, 3, &pool);
